@@ -20,8 +20,10 @@ VP_HARNESS(h_depth)
   char *s = malloc(8 * NG + 2);
   VP_NONNULL(s);
   unsigned dg[NG + 1], p = 0;
-  for (unsigned i = 0; i < NG; i++) { dg[i] = (unsigned) vp_in_range(1, 2); s[p++] = 'g'; s[p++] = 'r'; s[p++] = 'o'; s[p++] = 'u'; s[p++] = 'p'; s[p++] = ':'; s[p++] = (char) ('0' + dg[i]); s[p++] = ' '; }
-  dg[NG] = (unsigned) vp_in_range(1, 2); s[p++] = (char) ('0' + dg[NG]); s[p] = 0;
+  /* arities are concrete (alternating 2,1): a symbolic digit makes strtoul's end pointer, hence every later parse
+   * position, symbolic; this harness is about the level-count boundary, arbitrary content is h_parse_bytes */
+  for (unsigned i = 0; i < NG; i++) { dg[i] = 2 - (i & 1); s[p++] = 'g'; s[p++] = 'r'; s[p++] = 'o'; s[p++] = 'u'; s[p++] = 'p'; s[p++] = ':'; s[p++] = (char) ('0' + dg[i]); s[p++] = ' '; }
+  dg[NG] = 2; s[p++] = (char) ('0' + dg[NG]); s[p] = 0;
   errno = 0;
   int r = hwloc_backend_synthetic_init(data, s);
   /* machine + NG groups + PU = NG + 2 levels must stay below the table size, the implicit NUMA level then still fits */
@@ -32,8 +34,7 @@ VP_HARNESS(h_depth)
     for (unsigned i = 0; i < NG; i++) { w *= dg[i]; VP_CHECK(data->level[i + 2].attr.type == HWLOC_OBJ_GROUP && data->level[i + 2].totalwidth == w && data->level[i + 2].arity == dg[i + 1], "Group levels with the arities and widths written in the string"); }
     VP_CHECK(data->level[NG + 2].attr.type == HWLOC_OBJ_PU && data->level[NG + 2].totalwidth == w * dg[NG] && data->level[NG + 2].arity == 0, "PU level last, terminated by arity 0");
   } else VP_CHECK(r == -1 && errno == EINVAL, "too many levels are rejected with EINVAL");
-  VP_WITNESS_IF(r == 0, "accepted");
-  VP_WITNESS_IF(r == -1, "rejected");
+  if (NG + 2 <= HWLOC_SYNTHETIC_MAX_DEPTH - 1) VP_WITNESS_IF(r == 0, "accepted"); else VP_WITNESS_IF(r == -1, "rejected");
 }
 
 /* ---- arbitrary bytes ------------------------------------------------------------------------------------------------ */
@@ -102,7 +103,6 @@ VP_HARNESS(h_export_cursor)
   size_t len = (size_t) vp_in_range(0, CAP);
   unsigned char canary = vp_in_byte();
   for (unsigned i = 0; i <= CAP; i++) { buf[i] = (char) canary; full[i] = 0; }
-  VP_SYMBOLIC_PHASE(1);
   errno = 0;
   int n = hwloc_topology_export_synthetic(t, full, CAP + 1, flags);
   unsigned long known = HWLOC_TOPOLOGY_EXPORT_SYNTHETIC_FLAG_NO_EXTENDED_TYPES | HWLOC_TOPOLOGY_EXPORT_SYNTHETIC_FLAG_NO_ATTRS | HWLOC_TOPOLOGY_EXPORT_SYNTHETIC_FLAG_V1 | HWLOC_TOPOLOGY_EXPORT_SYNTHETIC_FLAG_IGNORE_MEMORY;
